@@ -47,6 +47,12 @@ def handle : Handler
       | .ok p => some (showParams p)
       | .error e => some (showErr e)
     | none => some "bad-op"
+  | ["c18.bracket", u] =>
+    match parseCps u with
+    | some uri => (match bracketText uri with
+      | some t => some s!"some {showCps t}"
+      | none => some "none")
+    | none => some "bad-op"
   | ["c18.unquote", u] =>
     match parseCps u with
     | some s => some (showCps (unquote s))
